@@ -128,5 +128,18 @@ pub fn write_shard(args: &Args, k: usize, text: &str) {
 
 /// Silence panic messages (the harness catches panics and reports them itself).
 pub fn quiet_panics() {
-    std::panic::set_hook(Box::new(|_| {}));
+    std::panic::set_hook(Box::new(|info| {
+        // panics raised by the harness itself (set-up failures, internal bugs) must stay visible
+        let msg = if let Some(s) = info.payload().downcast_ref::<&str>() {
+            s.to_string()
+        } else if let Some(s) = info.payload().downcast_ref::<String>() {
+            s.clone()
+        } else {
+            String::new()
+        };
+        let in_harness = info.location().map(|l| l.file().contains("/verif/") || l.file().starts_with("src/")).unwrap_or(false);
+        if in_harness || msg.starts_with("harness") {
+            eprintln!("harness panic: {} at {:?}", msg, info.location().map(|l| format!("{}:{}", l.file(), l.line())));
+        }
+    }));
 }
